@@ -16,6 +16,7 @@ DZ = {
     "deep30": [0.1] * 30,  # never deepened
     "d15": [0.15] * 10,
     "d30": [0.3] * 5,
+    "d15x9": [0.15] * 9,   # 1.35 m, few compartments (small arrays)
     "d15x20": [0.15] * 20,  # odd number of centimetres: compartment centres fall on half centimetres (never deepened: 3.0 m)
     "odd": [0.05] * 4 + [0.15] * 18,
     "few8": [0.1] * 4 + [0.2] * 4,  # few compartments: deepening for a deep-rooted crop thickens even the top one
@@ -32,6 +33,7 @@ CUSTOM3U = {  # three contrasting layers whose boundaries are float-unlucky sums
 CUSTOMTEX = {"type": "custom", "texture": [[0.4, 40, 20, 2.5, 100], [2.6, 20, 40, 1.5, 100]]}
 
 TEX60 = {"type": "custom", "texture": [[0.5, 60, 20, 2.5, 100], [3.5, 55, 20, 2.5, 100]]}   # built from texture (pedotransfer function)
+SHORT_LAYER = {"type": "custom", "layers": [[0.9, 0.10, 0.22, 0.41, 1200.0, 100]]}   # one layer thinner than the compartment list: the rest takes its values
 SAND_OVER_CLAY = {"type": "custom", "layers": [[0.3, 0.06, 0.13, 0.36, 3000.0, 100], [3.7, 0.39, 0.54, 0.55, 35.0, 100]]}
 CLAY_OVER_SAND = {"type": "custom", "layers": [[0.4, 0.39, 0.54, 0.55, 35.0, 100], [3.6, 0.06, 0.13, 0.36, 3000.0, 100]]}
 
@@ -49,6 +51,7 @@ SOILS = {
     "custom3u": CUSTOM3U,
     "customtex": CUSTOMTEX,
     "tex60": TEX60,
+    "shortlayer": SHORT_LAYER,
 }
 
 CROPS = {
@@ -122,6 +125,7 @@ GW = {
 SOILOPT = {
     "default": {},
     "evapz_fixed": {"evap_z_min": 0.15, "evap_z_max": 0.15},  # evaporation layer of fixed thickness
+    "evapz_thin": {"evap_z_min": 0.05, "evap_z_max": 0.10},     # an evaporation layer shallower than the first compartment
     "evapz_wide": {"evap_z_min": 0.1, "evap_z_max": 0.4},
     "kex_fevap": {"kex": 1.25, "f_evap": 2, "f_wrel_exp": 0.6},
     "fwcc100": {"fwcc": 100},
@@ -143,7 +147,7 @@ CROPOPT = {
     "polstress_bands": {"Tmin_up": 12.0, "Tmin_lo": 4.0, "Tmax_up": 38.0, "Tmax_lo": 44.0},
 }
 
-IWC_KINDS = ["WP", "FC", "SAT", "Pct50", "Depth", "DepthWetTop"]
+IWC_KINDS = ["WP", "FC", "SAT", "Pct50", "Depth", "DepthWetTop", "DepthDryTop"]
 
 WINDOWS = {  # (start offset in days relative to first planting, n seasons, trailing days after last planting year's harvest)
     "w1": {"pre": 4, "seasons": 1},
@@ -353,6 +357,8 @@ WATER_BASES = [
     _b(soil="ClayLoam", iwc="Pct50", irr="net50", word="showers", crop="cotton.2", off=True, win="w2", dz="nonuni"),
     # bunds and mulches together on slowly draining soil with showers: shallow ponds that evaporation uses up within a day or two
     _b(soil="Paddy", iwc="SAT", field="bunds_mulch", word="showers", crop="rice.2", irr="none"),
+    # a thin evaporation layer on a heavy soil: dry surface over a wet subsoil, showers smaller than the evaporative demand
+    _b(soil="Clay", iwc="DepthDryTop", irr="none", word="drizzle", crop="maize.2", soilopt="evapz_thin", win="w2"),
     # chilly days (0 < degree days < a raised GDD_lo) under a developed canopy
     _b(soil="Loam", iwc="FC", irr="smt", word="chilly", crop="maize.2", cropopt="gddlo3"),
     # a soil built from texture, started at wilting point under drought (the surface compartments are dried to air dry)
